@@ -72,9 +72,108 @@ type RunSpec struct {
 	Enqueuers  int     `json:"enqueuers"`
 	PerturbP   float64 `json:"perturbp"`
 	PerturbMax int     `json:"perturbmax"`
+	// Focus*: one long delay (FocusUs microseconds) inside the scheduler, right after the FocusNth occurrence
+	// of hook event FocusEv in this run (vt.Collector.Focus*).
+	FocusEv  string `json:"focusev,omitempty"`
+	FocusNth int    `json:"focusnth,omitempty"`
+	FocusUs  int    `json:"focusus,omitempty"`
+	// Cut > 0: phased run.  Jobs 1..Cut are enqueued first; the bodies of the jobs in Held block; once everything
+	// else of phase one has come to rest (finished, failed, skipped) jobs Cut+1..J are enqueued - Enqueue meets
+	// dependencies that are long finished, failed and recorded, or still running - and the held bodies are
+	// released HeldRelUs microseconds later.
+	Cut       int   `json:"cut,omitempty"`
+	Held      []int `json:"held,omitempty"`
+	HeldRelUs int   `json:"heldrelus,omitempty"`
 	// Script, if non-empty, replaces the random pacing: the run is steered
 	// step by step (see replay.go).
 	Script []Step `json:"script,omitempty"`
+}
+
+// every hook event of the scheduler (see /repo/scheduler/scheduler.go, build tag verif)
+var hookEvents = []string{"w_begin", "w_dying", "w_dsent", "w_recv", "w_skip_ctx", "w_skip_inv", "w_start", "w_end", "w_sent", "w_exit",
+	"c_enq_begin", "c_enq", "l_exit", "l_drain_recv", "l_drain_end", "l_select", "l_dispatch", "l_recv_closed", "l_recv_enq",
+	"l_recv_done", "l_tick", "c_close", "c_ret_ctx", "c_ret_fin"}
+
+// genFocus: a random run with one long delay behind one step of the scheduler. The step is drawn uniformly
+// over the KINDS of steps, so rare ones (the loop's exit and drain, a dying worker) are held as often as
+// common ones.
+func genFocus(rng *rand.Rand, k int, maxJ, maxN int) RunSpec {
+	rs := genRun(rng, k, maxJ, maxN)
+	rs.FocusEv = hookEvents[rng.Intn(len(hookEvents))]
+	rs.FocusNth = 1
+	if rng.Intn(2) == 0 {
+		rs.FocusNth = 1 + rng.Intn(5)
+	}
+	rs.FocusUs = 300 + rng.Intn(2500)
+	return rs
+}
+
+// genPhased: see RunSpec.Cut.
+func genPhased(rng *rand.Rand, k int) RunSpec {
+	rs := RunSpec{Run: k, Seed: rng.Int63(), CancelMode: "none", Cancel2Mode: "none"}
+	rs.J = 4 + rng.Intn(5)
+	rs.N = 1 + rng.Intn(4)
+	rs.Coe = rng.Intn(10) < 7
+	rs.Cut = 2 + rng.Intn(rs.J-3)
+	pfail := []float64{0.2, 0.35, 0.5}[rng.Intn(3)]
+	for j := 1; j <= rs.J; j++ {
+		deps := []int{}
+		pdep := 0.3
+		if j > rs.Cut {
+			pdep = 0.45
+		}
+		for d := 1; d < j; d++ {
+			if rng.Float64() < pdep {
+				deps = append(deps, d)
+			}
+		}
+		if len(deps) > 0 && rng.Intn(10) == 0 {
+			deps = append(deps, deps[rng.Intn(len(deps))])
+		}
+		rs.Deps = append(rs.Deps, deps)
+		o := "ok"
+		switch x := rng.Float64(); {
+		case x < pfail:
+			o = "err"
+		case x < pfail+0.05:
+			o = "goexit"
+		}
+		rs.Out = append(rs.Out, o)
+		rs.Cls = append(rs.Cls, j)
+		b := rng.Intn(40)
+		if j > rs.Cut && rng.Intn(3) == 0 {
+			b = 400 + rng.Intn(1600) // a job of phase two that outlasts the others
+		}
+		rs.BodyUs = append(rs.BodyUs, b)
+		e := 0
+		if j > rs.Cut && rng.Intn(3) == 0 {
+			e = rng.Intn(200)
+		}
+		rs.EnqUs = append(rs.EnqUs, e)
+	}
+	// up to N-1 held bodies among the jobs of phase one (a free worker must remain for the others)
+	for j := 1; j <= rs.Cut && len(rs.Held) < effN(rs.N)-1 && len(rs.Held) < 2; j++ {
+		if rng.Intn(2) == 0 {
+			rs.Held = append(rs.Held, j)
+		}
+	}
+	rs.HeldRelUs = rng.Intn(1200)
+	if rng.Intn(2) == 0 {
+		rs.WaitUs = rng.Intn(600)
+	}
+	rs.Emit = rng.Intn(4) == 0
+	rs.PerturbP = []float64{0, 0.2}[rng.Intn(2)]
+	rs.PerturbMax = 30
+	return rs
+}
+
+func (rs *RunSpec) held(j int) bool {
+	for _, h := range rs.Held {
+		if h == j {
+			return true
+		}
+	}
+	return false
 }
 
 func genRun(rng *rand.Rand, k int, maxJ, maxN int) RunSpec {
@@ -389,31 +488,33 @@ func (e *stateEmitter) Emit(s scheduler.State) {
 }
 
 type exec struct {
-	rs         RunSpec
-	log        *vt.APILog
-	errs       map[int]error // class -> error value
-	cancel     context.CancelFunc
-	cmu        sync.Mutex
-	cdone      bool
-	cbegun     bool
-	ctx2       context.Context
-	cancel2    context.CancelFunc
-	c2done     bool
-	c2begun    bool
-	inBody     int32
-	inBar      int32         // barrier jobs in flight
-	maxBar     int32         // most barrier jobs ever in flight together
-	barFull    chan struct{} // closed when all barrier jobs are in flight
-	barRelease chan struct{} // closed by the driver when the barrier cannot fill
-	barVerdict string
-	barOnce    sync.Once
-	holdc      chan struct{} // closed to release the held body
-	heldc      chan struct{} // closed when the held body has started
-	heldOnce   sync.Once
-	nostamp    bool
-	col        *vt.Collector
-	gate       func(j int) // scripted runs: blocks the body of job j until released
-	over       int32       // set when the run has been judged; late timers must not log into the next run
+	rs          RunSpec
+	log         *vt.APILog
+	errs        map[int]error // class -> error value
+	cancel      context.CancelFunc
+	cmu         sync.Mutex
+	cdone       bool
+	cbegun      bool
+	ctx2        context.Context
+	cancel2     context.CancelFunc
+	c2done      bool
+	c2begun     bool
+	inBody      int32
+	inBar       int32         // barrier jobs in flight
+	maxBar      int32         // most barrier jobs ever in flight together
+	barFull     chan struct{} // closed when all barrier jobs are in flight
+	barRelease  chan struct{} // closed by the driver when the barrier cannot fill
+	barVerdict  string
+	heldRel     chan struct{} // phased runs: closed to release the held bodies
+	heldRelOnce sync.Once
+	barOnce     sync.Once
+	holdc       chan struct{} // closed to release the held body
+	heldc       chan struct{} // closed when the held body has started
+	heldOnce    sync.Once
+	nostamp     bool
+	col         *vt.Collector
+	gate        func(j int) // scripted runs: blocks the body of job j until released
+	over        int32       // set when the run has been judged; late timers must not log into the next run
 }
 
 // doCancel cancels the context and stamps the Cancel event after cancel()
@@ -608,7 +709,13 @@ func (x *exec) body(j int) func(context.Context) error {
 			x.heldOnce.Do(func() { close(x.heldc) })
 			select {
 			case <-x.holdc:
-			case <-time.After(4 * time.Second): // never block a body for good
+			case <-time.After(40 * time.Second): // never block a body for good
+			}
+		}
+		if rs.Cut > 0 && rs.held(j) {
+			select {
+			case <-x.heldRel:
+			case <-time.After(20 * time.Second): // never block a body for good
 			}
 		}
 		o := rs.Out[j-1]
@@ -661,7 +768,7 @@ func (x *exec) body(j int) func(context.Context) error {
 
 // execRun executes one run on the real scheduler.
 func execRun(rs RunSpec, log *vt.APILog, col *vt.Collector, nostamp bool, deadline time.Duration) (hang bool) {
-	x := &exec{rs: rs, log: log, errs: map[int]error{}, nostamp: nostamp, col: col, barFull: make(chan struct{}), barRelease: make(chan struct{}),
+	x := &exec{rs: rs, log: log, errs: map[int]error{}, nostamp: nostamp, col: col, barFull: make(chan struct{}), barRelease: make(chan struct{}), heldRel: make(chan struct{}),
 		holdc: make(chan struct{}), heldc: make(chan struct{})}
 	if col != nil {
 		col.ResetSeen()
@@ -673,6 +780,7 @@ func execRun(rs RunSpec, log *vt.APILog, col *vt.Collector, nostamp bool, deadli
 	}
 	if col != nil {
 		col.PerturbP, col.PerturbMax = rs.PerturbP, rs.PerturbMax
+		col.FocusEv, col.FocusNth, col.FocusDelay = rs.FocusEv, rs.FocusNth, time.Duration(rs.FocusUs)*time.Microsecond
 	}
 	rng := rand.New(rand.NewSource(rs.Seed))
 	jc := make([]int, rs.J)
@@ -772,6 +880,16 @@ func execRun(rs RunSpec, log *vt.APILog, col *vt.Collector, nostamp bool, deadli
 				}
 				time.Sleep(2 * time.Millisecond)
 			}
+			if rs.Cut > 0 && j == rs.Cut+1 {
+				// phase one comes to rest: nothing logged for 2 ms and only held bodies in flight
+				last, since := log.Progress(), time.Now()
+				for i := 0; i < 3000 && (time.Since(since) < 2*time.Millisecond || int(atomic.LoadInt32(&x.inBody)) > len(rs.Held)); i++ {
+					time.Sleep(100 * time.Microsecond)
+					if p := log.Progress(); p != last {
+						last, since = p, time.Now()
+					}
+				}
+			}
 			if rs.CancelMode == "atenq" && rs.CancelArg == j {
 				x.doCancel()
 			}
@@ -786,6 +904,10 @@ func execRun(rs RunSpec, log *vt.APILog, col *vt.Collector, nostamp bool, deadli
 				log.Add(vt.APIEvent{Ev: "submit", Run: rs.Run, Job: j})
 			}
 			handles[j] = s.Enqueue(x.ctxOf(ctx, j), scheduler.Job{Run: x.body(j), Dependencies: deps})
+		}
+		if rs.Cut > 0 {
+			d := time.Duration(rs.HeldRelUs) * time.Microsecond
+			go func() { time.Sleep(d); x.heldRelOnce.Do(func() { close(x.heldRel) }) }()
 		}
 		sleepUs(rs.WaitUs)
 		if rs.Barrier > 0 {
@@ -928,6 +1050,16 @@ func main() {
 		for k := 1; k <= *runs; k++ {
 			specs = append(specs, genRun(rng, k, *maxJ, *maxN))
 		}
+	case "focus":
+		rng := rand.New(rand.NewSource(*seed))
+		for k := 1; k <= *runs; k++ {
+			specs = append(specs, genFocus(rng, k, *maxJ, *maxN))
+		}
+	case "phased":
+		rng := rand.New(rand.NewSource(*seed))
+		for k := 1; k <= *runs; k++ {
+			specs = append(specs, genPhased(rng, k))
+		}
 	case "fanin":
 		// wide fan-in: one job depends on hundreds of others (End hooks of large collections,
 		// counters that might be narrower than int), in both modes, with and without a failure
@@ -994,7 +1126,7 @@ func main() {
 		}
 		if bad {
 			abnormal++
-			if abnormal >= 3 {
+			if abnormal >= 8 {
 				break // leaked goroutines pile up; enough evidence
 			}
 		}
